@@ -50,6 +50,7 @@ type wsOp struct {
 	files   []bfile
 	srcs    []string
 	targets []string
+	bad     []string   // rules (qualified names) whose execution fails: a file_set that lists a rule among its files
 	more    [][]string // further Build calls on the SAME Builder: their target lists (t2, t3)
 	wd      string     // work dir of the builder, relative to <root>/src ("" = the workspace root)
 	ar      bool   // Config.AlwaysRebuild: the build cache never answers, only buildNode's memo prevents a second execution
@@ -113,6 +114,9 @@ func (o *wsOp) line() string {
 	for i, t := range o.more {
 		l += fmt.Sprintf(" t%d=%s", i+2, hlist(t, ","))
 	}
+	if len(o.bad) > 0 {
+		l += " bad=" + hlist(o.bad, ",")
+	}
 	if o.wd != "" {
 		l += " wd=" + hs(o.wd)
 	}
@@ -145,6 +149,9 @@ func parseOp(line string) (*wsOp, bool) {
 		return nil, false
 	}
 	o.dirs, o.srcs, o.targets = unlist(d, ","), unlist(s, ","), unlist(t, ",")
+	if v, ok := kv(ws[1:], "bad"); ok {
+		o.bad = unlist(v, ",")
+	}
 	for _, k := range []string{"t2", "t3"} {
 		if v, ok := kv(ws[1:], k); ok {
 			o.more = append(o.more, unlist(v, ","))
@@ -348,6 +355,15 @@ func oneBuild(b *caco3.Builder, buf *bytes.Buffer, targets []string) string {
 			cs = append(cs, c)
 		}
 		sort.Strings(cs)
+		allOther := true
+		for _, c := range cs {
+			if !strings.HasPrefix(c, "other:") {
+				allOther = false
+			}
+		}
+		if allOther { // the load went through, a rule failed while executing
+			return "execfailed ran=" + hlist(names, ",")
+		}
 		a := "failed " + strings.Join(cs, ",")
 		if len(names) > 0 {
 			a += " ran=" + hlist(names, ",")
@@ -609,6 +625,61 @@ func (r *reading) analyse(o *wsOp) (reach map[string]bool, cycle, dangling bool)
 	return
 }
 
+// judgeExecFailure: a rule whose execution fails stops the build with an error;
+// nothing that depends on it is executed
+func judgeExecFailure(o *wsOp, impl string) (key, desc string, done bool) {
+	r := read(o)
+	reach, cycle, dangling := r.analyse(o)
+	if len(r.errClasses) > 0 || cycle || dangling {
+		return "", "", false
+	}
+	bad := map[string]bool{}
+	any := false
+	for _, b := range o.bad {
+		bad[b] = true
+		if reach[b] {
+			any = true
+		}
+	}
+	if !any {
+		if strings.HasPrefix(impl, "execfailed") {
+			return "", "", true // some other build step failed; not judged
+		}
+		return "", "", false
+	}
+	if strings.HasPrefix(impl, "built") {
+		return "failed-rule-build-returned-nil", fmt.Sprintf("the execution of one of %q fails, it is reachable from %q, but Build reported success: %s", o.bad, o.targets, impl), true
+	}
+	if !strings.HasPrefix(impl, "execfailed ran=") {
+		return "spurious-error", "the load should succeed and a rule should fail while executing, but: " + impl, true
+	}
+	ran := unlist(strings.TrimPrefix(impl, "execfailed ran="), ",")
+	if len(ran) == 0 || !bad[ran[len(ran)-1]] {
+		return "dependent-executed-after-failed-rule", fmt.Sprintf("the build did not stop at the rule whose execution failed (%q): executed %q", o.bad, ran), true
+	}
+	// nothing executed depends on a failing rule
+	var dependsOnBad func(n string, seen map[string]bool) bool
+	dependsOnBad = func(n string, seen map[string]bool) bool {
+		nd := r.nodes[n]
+		if nd == nil || seen[n] {
+			return false
+		}
+		seen[n] = true
+		for _, d := range nd.deps {
+			if bad[d] || dependsOnBad(d, seen) {
+				return true
+			}
+		}
+		return false
+	}
+	for _, n := range ran {
+		if dependsOnBad(n, map[string]bool{}) {
+			return "dependent-executed-after-failed-rule", fmt.Sprintf("%q was executed although a rule it depends on fails (%q): executed %q", n, o.bad, ran), true
+		}
+	}
+	return "", "", true
+}
+
 func maxGarbage(o *wsOp) int {
 	m := 0
 	for _, f := range o.files {
@@ -670,6 +741,9 @@ func judgeCall(o *wsOp, impl string, warm bool) (key, desc string) {
 				impl[:i], unlist(impl[i+5:], ","))
 		}
 		impl = impl[:i] // a build step failed after the load succeeded
+	}
+	if k, d, done := judgeExecFailure(o, impl); done {
+		return k, d
 	}
 	key, desc = judge0(o, impl)
 	if warm && key == "reachable-rule-not-built" {
@@ -1242,6 +1316,49 @@ func (g *gen) rootBuildFile() {
 	}
 }
 
+// a rule whose execution fails (a file_set that lists a rule among its files)
+// below dependents: the build stops with an error, the dependents do not run
+func (g *gen) failingRules() {
+	b := func(n string, deps ...string) decl { return decl{kind: 'b', name: n, a: deps} }
+	f := func(n string, files []string, incs ...string) decl { return decl{kind: 'f', name: n, a: files, b: incs} }
+	wss := [][]decl{
+		{b("g"), f("bad", []string{"g"}), b("top", "bad"), b("side", "s")},
+		{b("g"), f("bad", []string{"s", "g"}), b("mid", "bad.fileset"), b("top", "mid", "side"), b("side")},
+		{b("g"), f("bad", []string{"g"}), f("user", []string{"bad.fileset"}), b("top", "side", "user"), b("side", "s")},
+		{b("g"), f("bad", []string{"g"}), b("a", "bad"), b("c", "a"), b("d", "c", "side"), b("side")},
+		{b("g"), f("bad", nil, "p/g"), b("top", "bad"), b("side")}, // Include of something that is not a file set
+	}
+	for _, decls := range wss {
+		var names []string
+		for _, d := range decls {
+			names = append(names, "p/"+d.name)
+		}
+		for _, t := range subsets(names) {
+			if len(t) > 2 {
+				continue
+			}
+			for _, ord := range [][]string{t, reverse(t)} {
+				g.add(&wsOp{dirs: []string{"p"}, files: []bfile{{dir: "p", decls: decls}}, srcs: []string{"p/s"},
+					targets: ord, bad: []string{"p/bad"}, ar: len(g.ops)%2 == 0}, true)
+				g.rep.Count("failing-rule-below-dependents")
+			}
+		}
+		// histories: the failing build first, then others on the same Builder
+		g.add(&wsOp{dirs: []string{"p"}, files: []bfile{{dir: "p", decls: decls}}, srcs: []string{"p/s"},
+			targets: []string{"p/top"}, more: [][]string{{"p/side"}, {"p/top"}}, bad: []string{"p/bad"}, ar: true}, true)
+		g.add(&wsOp{dirs: []string{"p"}, files: []bfile{{dir: "p", decls: decls}}, srcs: []string{"p/s"},
+			targets: []string{"p/side"}, more: [][]string{{"p/top"}}, bad: []string{"p/bad"}}, true)
+	}
+}
+
+func reverse(l []string) []string {
+	out := make([]string, len(l))
+	for i, x := range l {
+		out[len(l)-1-i] = x
+	}
+	return out
+}
+
 // random graphs over several packages
 func (g *gen) randomGraphs(n int, maxRules int) {
 	for i := 0; i < n; i++ {
@@ -1394,6 +1511,17 @@ func shrink(o *wsOp, key string, run func(string) string) *wsOp {
 		k, _ := judge(t, run(t.line()))
 		return k == key
 	}
+	if len(cur.bad) > 0 { // the failing rule is part of the fixture: only the targets shrink
+		for i := 0; i < len(cur.targets) && len(cur.targets) > 1; i++ {
+			t := cur
+			t.targets = append(append([]string{}, cur.targets[:i]...), cur.targets[i+1:]...)
+			if fails(&t) {
+				cur = t
+				i--
+			}
+		}
+		return &cur
+	}
 	for changed := true; changed; {
 		changed = false
 		// drop whole files, then declarations, then list entries, then targets and sources
@@ -1501,7 +1629,7 @@ func main() {
 	rep.Rule = "one op = one scratch workspace (bundle / file_set / sub_builds declarations over 1-3 packages, source files) + targets, " +
 		"built by the real Builder in a child process (every second op with AlwaysRebuild): all graphs of 2 rules over {r0, r1, source, missing} and of 3 (thorough: 4) rules over the rules x target subsets, " +
 		"every declaration permutation x target subset of fixed shapes (diamond, chain, self-loop, 2/4-cycle, cycle behind the memo, dangling, duplicate, output/rule collision, file sets, unnamed) and random 2-3 rule graphs, " +
-		"histories of two and three Build calls on one Builder (first failing or sound), build files with several sub_builds statements, a BUILD.caco3 in the workspace root outside src, build files with 1..100 statements that do not parse (below, at, above the error cap), builders started in work dirs at depth 0..2 with relative, ./, ../ and absolute targets over same-named nodes, target lists with source files before, between and after rule targets, sub-build directory strings (., empty, x/.., q, /q, ../q ...) singly and in pairs, random multi-package graphs (duplicates across files, long cycles, dangling, collisions, unnamed), long chains; " +
+		"rules whose execution fails below dependents, histories of two and three Build calls on one Builder (first failing or sound), build files with several sub_builds statements, a BUILD.caco3 in the workspace root outside src, build files with 1..100 statements that do not parse (below, at, above the error cap), builders started in work dirs at depth 0..2 with relative, ./, ../ and absolute targets over same-named nodes, target lists with source files before, between and after rule targets, sub-build directory strings (., empty, x/.., q, /q, ../q ...) singly and in pairs, random multi-package graphs (duplicates across files, long cycles, dangling, collisions, unnamed), long chains; " +
 		"distinct = distinct op line; every op is non-trivial (it loads at least one build file)"
 	work := f.Work
 	if work == "" {
@@ -1546,6 +1674,7 @@ func main() {
 		g.workDirs()
 		g.syntaxErrors()
 		g.histories()
+		g.failingRules()
 		g.severalSubBuilds()
 		g.rootBuildFile()
 		g.shapes()
@@ -1645,6 +1774,9 @@ func main() {
 					for k := 1; k < len(ps); k++ {
 						if strings.HasPrefix(ps[k], "built") {
 							ps[k] = "built"
+						}
+						if strings.HasPrefix(ps[k], "execfailed") {
+							ps[k] = "execfailed"
 						}
 					}
 					return strings.Join(ps, " ;; ")
